@@ -86,6 +86,8 @@ def parse_proc_logs(logdir):
                 p["env"][unhx(f[1]).decode("utf-8", "replace")] = unhx(f[2]).decode("utf-8", "replace")
             elif f[0] == "sig":
                 p["sigs"].append((int(f[1]), int(f[2])))
+            elif f[0] == "gap":
+                p.setdefault("gaps", []).append((int(f[1]), int(f[2])))
             elif f[0] in ("end-exit", "end-signal"):
                 p["end"] = (f[0], int(f[1]), int(f[2]))
             elif f[0] == "wrote":
@@ -219,8 +221,13 @@ def run(sc, workdir, nextest_bin=NEXTEST):
     for p in res.procs:
         try:
             os.kill(p["pid"], 0)
-            # still alive: is it really ours? (pid reuse is implausible within a run)
-            res.survivors.append(p["pid"])
+            # still alive (a zombie awaiting its reaper is dead); pid reuse is implausible within a run
+            try:
+                state = [l for l in open(f"/proc/{p['pid']}/status") if l.startswith("State:")][0]
+            except (FileNotFoundError, IndexError, ProcessLookupError):
+                state = "State:\tX"
+            if "Z" not in state.split()[1] and "X" not in state.split()[1]:
+                res.survivors.append(p["pid"])
         except (ProcessLookupError, PermissionError):
             pass
     for pid in res.survivors:
